@@ -26,11 +26,11 @@ pub open spec fn one_atom(chars: Seq<String>) -> bool { code_points_total(chars)
 #[verifier::external_body] pub fn vx_str_starts_with_str(s: &str, p: &str) -> (r: bool) ensures r == (p@.len() <= s@.len() && forall|i: int| 0 <= i < p@.len() ==> #[trigger] s@[i] == p@[i]) { unimplemented!() }
 '''
 P = ['C01', 'C03', 'C05', 'C13']
-RULES = [('R19', r"(\b[\w.\[\]]+)\.matches\(('(?:\\.|[^'\\])')\)\.count\(\)", r'vx_count_char(&\1, \2)', 'str::matches(char).count() (uninterpreted count)'),
-         ('R5', r'\b(\w+)\.chars\(\)\.count\(\)', r'vx_char_count(\1)', 'chars().count(): number of code points'),
-         ('R12', r"\b(\w+)\.starts_with\(('(?:\\.|[^'\\])')\)", r'vx_str_starts_with_char(\1, \2)', 'str::starts_with(char)'),
-         ('R12', r"\b(\w+)\.ends_with\(('(?:\\.|[^'\\])')\)", r'vx_str_ends_with_char(\1, \2)', 'str::ends_with(char)'),
-         ('R12', r'\b(\w+)\.starts_with\(("(?:[^"\\]|\\.)*")\)', r'vx_str_starts_with_str(\1, \2)', 'str::starts_with(&str): prefix test')]
+RULES = [('R19', r"((?:&\*?)?\b[\w.\[\]]+)\.matches\(('(?:\\.|[^'\\])')\)\.count\(\)", r'vx_count_char(&*\1, \2)', 'str::matches(char).count() (uninterpreted count)'),
+         ('R5', r'\b([\w.\[\]]+)\.chars\(\)\.count\(\)', r'vx_char_count(&*\1)', 'chars().count(): number of code points'),
+         ('R12', r"\b([\w.\[\]]+)\.starts_with\(('(?:\\.|[^'\\])')\)", r'vx_str_starts_with_char(&*\1, \2)', 'str::starts_with(char)'),
+         ('R12', r"\b([\w.\[\]]+)\.ends_with\(('(?:\\.|[^'\\])')\)", r'vx_str_ends_with_char(&*\1, \2)', 'str::ends_with(char)'),
+         ('R12', r'\b([\w.\[\]]+)\.starts_with\(("(?:[^"\\]|\\.)*")\)', r'vx_str_starts_with_str(&*\1, \2)', 'str::starts_with(&str): prefix test')]
 
 def build(repo, spec_dir, canary=False):
     b = Builder('atom', repo, canary)
